@@ -451,7 +451,7 @@ def run_world(w, rng):
             if asns:
                 kind, asn = asns[rng.randrange(len(asns))]
                 con.tally = snapshot.copy() if snapshot is not None else None
-                v = rng.choice(["plain", "empty", "subset", "cards0", "notally", "foreign"])
+                v = rng.choice(["plain", "empty", "subset", "cards0", "notally", "foreign", "scf"])
                 if v == "plain":
                     m_cases.append(run_margin(asn, con, dict(snapshot or {}), v))
                 elif v == "empty":
@@ -472,6 +472,12 @@ def run_world(w, rng):
                 elif v == "notally":
                     con.tally = None
                     m_cases.append(run_margin(asn, con, None, v))
+                elif v == "scf":    # the contest's social choice function is not the one the assertion was made for
+                    keep = con.choice_function
+                    con.choice_function = rng.choice([x for x in ("PLURALITY", "APPROVAL", "SUPERMAJORITY", "IRV") if x != keep])
+                    if not (con.choice_function == "SUPERMAJORITY" and con.share_to_win is None and kind[0] == "sm"):
+                        m_cases.append(run_margin(asn, con, None, v))
+                    con.choice_function = keep
                 else:   # a tally with names that are not listed candidates, plain dict with every listed name
                     d = {x: rng.randint(0, 9) for x in s["cands"]}
                     d[rng.choice(WRITEINS)] = rng.randint(1, 9)
